@@ -424,6 +424,21 @@ def _matmul(a, b):
     return reduce("sum", prod, -1, label="matmul")
 
 
+def _softmax(t, dim=-1, dtype=None, **kw):
+    """torch.softmax (documented definition, reals): exp(x_i) / sum_j exp(x_j) along dim; an entry equal to -inf (A1b: the
+    constant -INF) has weight 0. exp is the uninterpreted positive function of the operation table."""
+    d = norm_dim(dim, t.rank)
+    ts = ops.to_dtype(t, "f").snap()
+    EXP = ops.UF["exp"]
+    inf_used = getattr(cur(), "inf_declared", False)
+    w = mk(t.shape, "f", (lambda I: z3.If(ts(I) == -ops.INF, z3.RealVal(0), EXP(ts(I)))) if inf_used else (lambda I: EXP(ts(I))))
+    z = reduce("sum", w, d, keepdim=True, label="softmax-norm")
+    return binop("truediv", w, z)
+
+
+TF["softmax"] = _softmax
+TM["softmax"] = _softmax
+
 TF["matmul"] = _matmul
 TF["bmm"] = _matmul
 TM["matmul"] = _matmul
@@ -633,6 +648,7 @@ def _mse_loss(a, b, reduction="mean"):
 
 
 FN["mse_loss"] = _mse_loss
+FN["softmax"] = _softmax
 
 
 def _huber_loss(a, b, reduction="mean", delta=1.0):
